@@ -638,6 +638,18 @@ func (s *Sim) opDumpLoad(op *Op) {
 		}
 		dump = d2
 	}
+	if op.N%5 == 1 {
+		// the pool entries through the binary codec, one by one
+		for i := range dump.Entities {
+			b, err := dump.Entities[i].MarshalBinary()
+			var e ecs.Entity
+			if err != nil || e.UnmarshalBinary(b) != nil || e != dump.Entities[i] {
+				s.violate("C17", "codec.roundtrip", "dump_entry_binary", false, "pool entry %d of a dump, %v, does not survive the binary codec: %v (err %v)", i, dump.Entities[i], e, err)
+				return
+			}
+			dump.Entities[i] = e
+		}
+	}
 	capN, _ := s.initCaps()
 	var w2 *ecs.World
 	if op.N%3 == 0 {
@@ -747,8 +759,19 @@ func (s *Sim) opCodec(op *Op) {
 	} else {
 		// arbitrary (id, gen) pair through the binary decoder
 		buf := make([]byte, 8)
-		for i := range buf {
-			buf[i] = byte(op.X >> (8 * i))
+		x := op.X
+		if x%4 == 0 {
+			// the reserved IDs 0 and 1 (zero entity, wildcard) and small IDs with arbitrary generations:
+			// such pairs are part of every entity dump (reserved entries, free-list links)
+			id, gen := uint32((x>>8)%4), uint32(x>>32)|1
+			for i := 0; i < 4; i++ {
+				buf[3-i] = byte(id >> (8 * i))
+				buf[7-i] = byte(gen >> (8 * i))
+			}
+		} else {
+			for i := range buf {
+				buf[i] = byte(x >> (8 * i))
+			}
 		}
 		if err := e.UnmarshalBinary(buf); err != nil {
 			s.violate("C17", "codec.roundtrip", "binary8", false, "UnmarshalBinary of 8 bytes failed: %v", err)
